@@ -26,7 +26,7 @@ func init() {
 	register("C15", checkC15)
 	describe("C15", Meta{
 		Technique: "table extraction by symbolic evaluation of Simbox.Add / Rule.String ASTs (print/parse inverse check), must-dominance of the Suspended test on go/cfg for every Simbox.Rules consumer, producer/consumer field agreement over go/types objects",
-		Claim:     "Decides three structural clauses of C15: parse(print(r))==r for every rule shape Add can build (symbolic in tick/object/extra), every consumer of Simbox.Rules outside pkg/simbox skips suspended rules before touching them on all paths, every rule class/config option accepted by Add has a consumer whose table is read, and no consumer rewrites a field of a rule before interpreting it (RULEPURE). Necessary conditions only: tick arithmetic, name resolution and reported values are not decided.",
+		Claim:     "Decides three structural clauses of C15: parse(print(r))==r for every rule shape Add can build (symbolic in tick/object/extra), every consumer of Simbox.Rules outside pkg/simbox skips suspended rules before touching them on all paths, every rule class/config option accepted by Add has a consumer whose table is read, and no consumer rewrites a field of a rule before interpreting it (RULEPURE). (SINGLEPARSER) the decoder of set-rule values reads literals with bmnumbers.ImportString only. Necessary conditions only: tick arithmetic, name resolution and reported values are not decided.",
 		Note:      "Assumes rule objects/extras contain no ':' (they come from strings.Split on ':'); the simulator entry points are found by the Simbox.Rules field object, not by name.",
 		DesignRef: "DESIGN.md §2 C15",
 	})
